@@ -170,7 +170,8 @@ NdData(k, sh) == [i \in 1 .. SeqProduct(sh) |-> Leaf(Fill(k)[((i - 1) % 7) + 1])
 Orders == {"C", "F", "V"}        \* numpy memory layouts: C-contiguous, Fortran-contiguous, strided view
 
 (* The bounded pools.  b is the budget: 2 at the top, decreasing towards the leaves; primitive leaves range
-   over Full for b >= 1 and over Rep for b = 0; every nullable position also takes NA.                       *)
+   over Full for b >= 1 and over Rep for b = 0; every nullable position also takes NA.  Vals(t, 0) has at most
+   three elements for every t (it is used quadratically).                                                     *)
 RECURSIVE Vals(_, _)
 Vals(t, b) ==
   LET sub(u)   == Opt(Vals(u, IF b >= 1 THEN b - 1 ELSE 0))       \* the position under scrutiny
@@ -188,8 +189,8 @@ Vals(t, b) ==
          ELSE {VSet(<<>>)} \cup {VSet(<<x>>) : x \in sub(t.e)}
               \cup {VSet(SetToSeq(S)) : S \in {S \in SUBSET small(t.e) : Cardinality(S) \in {2, 3}}}
     [] t.k = "dict" ->
-         IF b = 0 THEN {VDict(<<>>)} \cup {VDict(<<[k |-> x, v |-> NA]>>) : x \in Vals(t.key, 0)}
-                       \cup {VDict(<<[k |-> NA, v |-> y]>>) : y \in Vals(t.val, 0)}
+         IF b = 0 THEN {VDict(<<>>), VDict(<<[k |-> Pick(Vals(t.key, 0)), v |-> NA]>>),
+                        VDict(<<[k |-> NA, v |-> Pick(Vals(t.val, 0))]>>)}
          ELSE {VDict(<<>>)}
               \cup {VDict(<<[k |-> x, v |-> y]>>) : x \in sub(t.key), y \in small(t.val)}
               \cup {VDict(<<[k |-> x, v |-> y]>>) : x \in small(t.key), y \in sub(t.val)}
@@ -197,16 +198,16 @@ Vals(t, b) ==
                       kk \in {q \in small(t.key) \X small(t.key) : q[1] # q[2]}, y1 \in small(t.val), y2 \in small(t.val)}
     [] t.k \in {"tuple", "struct"} ->
          LET n  == Len(t.ts)
-             xs == IF n > 3
+             xs == IF n > 3 \/ b = 0
                    THEN \* wide (the missing bits need a second byte): nothing / everything / alternately missing
                         {[i \in 1 .. n |-> NA], [i \in 1 .. n |-> Pick(Vals(t.ts[i], 0))],
                          [i \in 1 .. n |-> IF i % 2 = 0 THEN NA ELSE Pick(Vals(t.ts[i], 0))],
                          [i \in 1 .. n |-> IF i % 2 = 1 THEN NA ELSE Pick(Vals(t.ts[i], 0))]}
-                   ELSE IF b = 0 THEN Prod([i \in 1 .. n |-> small(t.ts[i])])
                    ELSE OneFull([i \in 1 .. n |-> sub(t.ts[i])], [i \in 1 .. n |-> small(t.ts[i])])
          IN  IF t.k = "tuple" THEN {VTup(x) : x \in xs} ELSE {VStruct(t.ns, x) : x \in xs}
     [] t.k = "interval" ->
-         IF b = 0 THEN {VIv(x, NA, TRUE, FALSE) : x \in Vals(t.p, 0)} \cup {VIv(NA, x, FALSE, TRUE) : x \in Vals(t.p, 0)}
+         IF b = 0 THEN {VIv(Pick(Vals(t.p, 0)), NA, TRUE, FALSE), VIv(NA, Pick(Vals(t.p, 0)), FALSE, TRUE),
+                        VIv(Pick(Vals(t.p, 0)), Pick(Vals(t.p, 0)), TRUE, TRUE)}
          ELSE {VIv(x, y, TRUE, FALSE) : x \in sub(t.p), y \in small(t.p)}
               \cup {VIv(x, y, FALSE, TRUE) : x \in small(t.p), y \in sub(t.p)}
               \cup {VIv(x, y, i, j) : x \in small(t.p), y \in small(t.p), i \in BOOLEAN, j \in BOOLEAN}
@@ -322,12 +323,13 @@ Over(S, K) ==
   \cup {TStruct(<<"empty", "start", "b">>, <<b, a, b>>) : a \in S, b \in K}
   \cup {TIv(p) : p \in NS}
 
-WithNd  == IOEnv.TV_ND = "1"                 \* n-d arrays in the universe
-WideSel == IOEnv.TV_WIDE = "1"               \* thorough tier: depth 2 over all of depth 1
+WithNd  == IOEnv.TV_ND = "1"                 \* n-d arrays in the universe (C33; C32 has them too)
+Level   == atoi(IOEnv.TV_LEVEL)              \* 0: quick tier, 1: thorough tier
 NdTypes == IF WithNd THEN {TNd(P(k), n) : k \in Numeric, n \in 0 .. 3} ELSE {}
+Special == {TTup(Wide9), TStruct(Names9, Wide9)}
+K1 == {P("int32")}
 K2 == {P("int32"), P("str")}
-T1 == Over(D0, D0) \cup NdTypes \cup {TTup(Wide9), TStruct(Names9, Wide9)}
-T1Narrow == Over(D0, K2) \cup {TNd(P(k), n) : k \in {"int32", "float64"} \cap (IF WithNd THEN Numeric ELSE {}), n \in {1, 2}}
+K4 == {P("int32"), P("float64"), P("str"), P("call")}
 \* depth 2: one construction of every kind around each selected depth-1 type
 Over2(S) ==
   LET HS == {x \in S : Hashable(x)} IN
@@ -336,7 +338,11 @@ Over2(S) ==
   \cup {TTup(<<P("int32"), e>>) : e \in S}
   \cup {TStruct(<<"uni", "a">>, <<e, P("str")>>) : e \in S}
   \cup {TIv(e) : e \in HS}
-T2 == IF WideSel THEN Over(T1Narrow, K2) \cup Over2(T1) ELSE Over2(T1Narrow)
+T1Full == Over(D0, D0) \cup NdTypes \cup Special
+T1Mid  == Over(D0, K2) \cup NdTypes \cup Special
+T1Tiny == Over(K4, K1) \cup {t \in NdTypes : t.e.k = "float64" /\ t.n = 2}
+T1 == IF Level = 0 THEN T1Mid ELSE T1Full
+T2 == IF Level = 0 THEN Over2(T1Tiny) ELSE Over2(T1Mid) \cup Over(T1Tiny, K2)
 CoreTypes == D0 \cup T1 \cup T2
 
 \* NOTE for TLC: zero-arity constant definitions are evaluated when the module is loaded, by every module that
